@@ -22,7 +22,24 @@ NETS = {
     'bend': {1: [(0, 0), (4, 3), (12, 3)], 2: [(12, 3), (15, 7)], 3: [(0, 0), (6, -8)]},              # a 3-vertex edge, oblique edges
     'dup':  {1: [(0, 0), (4, 3), (4, 3), (12, 3)], 2: [(12, 3), (15, 7)]},                            # an edge geometry with two consecutive identical vertices
 }
-INDEXES = {'r51': ((5, 1), 0.15), 'r22': ((2, 2), 0.25)}
+# scale probes: a street grid of 24 edges (many candidate edges in one index neighbourhood) and a 9-vertex winding road with side roads
+def _grid_net():
+    e, k = {}, 1
+    for i in range(4):
+        for j in range(4):
+            if i < 3:
+                e[k] = [(10 * i, 10 * j), (10 * i + 10, 10 * j)]
+                k += 1
+            if j < 3:
+                e[k] = [(10 * i, 10 * j), (10 * i, 10 * j + 10)]
+                k += 1
+    return e
+
+
+NETS['grid'] = _grid_net()
+NETS['road'] = {1: [(0, 0), (5, 2), (10, 0), (15, 3), (20, 1), (25, 4), (30, 2), (35, 5), (40, 3)], 2: [(40, 3), (45, 8)], 3: [(0, 0), (-4, -5)], 4: [(20, 1), (22, -6)]}
+NETBOX = {'grid': (12.0, 18.0, 11.0, 19.0), 'road': (24.0, 38.0, 0.5, 6.5)}      # the symbolic fix of these networks stays in this box (never on the line of a vertical edge)
+INDEXES = {'r51': ((5, 1), 0.15), 'r22': ((2, 2), 0.25), 'coarse': ((20, 20), 0.1)}
 RADII = [2.0, 5.5, 50.0]
 BOX = (-8.0, 28.0, -10.0, 14.0)
 
@@ -121,6 +138,14 @@ class C10(Check):
                     js.append(dict(kind='select', net=n, idx=ix, radius=5.5, T=1, multi=True))      # a collection of two tracks matched in one call
                 if tier != 'quick':
                     js.append(dict(kind='select', net=n, idx=ix, radius=5.5, T=2))
+        for r in ([3.0] if tier == 'quick' else [2.0, 3.0, 4.0, 6.0]):
+            js.append(dict(kind='cand', net='grid', idx='coarse', radius=r))
+        for r, ix in ([(2.5, 'r51')] if tier == 'quick' else [(2.0, 'r51'), (3.0, 'r51'), (5.5, 'r22'), (50.0, 'coarse')]):
+            for strip in range(8):
+                js.append(dict(kind='cand', net='road', idx=ix, radius=r, strip=strip, nstrips=8))
+        if tier != 'quick':
+            js.append(dict(kind='select', net='road', idx='r51', radius=5.5, T=1))
+            js.append(dict(kind='select', net='grid', idx='coarse', radius=6.0, T=1))
         return js
 
     def patches(self, job):
@@ -140,10 +165,10 @@ class C10(Check):
         return z3.Or([zreal(px) == x for x in xs]) if xs else z3.BoolVal(False)
 
     def _fix(self, eng, inp, job):
-        x0, x1, y0, y1 = BOX
+        x0, x1, y0, y1 = NETBOX.get(job['net'], BOX)
         if inp is None:
             if 'strip' in job:
-                w = (x1 - x0) / 4
+                w = (x1 - x0) / job.get('nstrips', 4)
                 lo, hi = x0 + job['strip'] * w, x0 + (job['strip'] + 1) * w
             else:
                 lo, hi = x0, x1
